@@ -30,7 +30,7 @@ RULE = (
     'file system (2-6 files in 8 directories (server root included) on two hosts, depth up to 4, diamonds, import hrefs written relative / '
     'dot-relative / root-relative / scheme-relative / absolute, in string or url() form, media none / all / print / a '
     'list / a query with expression, missing targets, rule kinds style / @media / @font-face / @page / @namespace / '
-    'comment, URL forms relative / parent / dot / query / fragment / percent-escaped / space / root / scheme-relative / '
+    'comment / @variables (with url() values; compared as a multiset as they take no part in the cascade order), URL forms relative / parent / dot / query / fragment / percent-escaped / space / root / scheme-relative / '
     'absolute / data:). Oracle: a reference expansion of the tree given the set of @imports the result kept; every kept '
     '@import must be justified (target missing, or media present and the group holds something other than style rules '
     'and comments); every other rule must appear exactly once, in cascade order, under the media of its import edges, '
@@ -239,7 +239,7 @@ MEDIA_CANON = {'': 'all', 'all': 'all', 'print': 'print', 'screen, tv': 'screen,
 URLFORMS = ['img/x.png', '../x.png', './y.png', 'x.png?v=1', 'x.svg#frag', 'x.png?a=b#c', 'x%20y.png', 'a b.png', '../../far.png',
             '/abs/x.png', '//cdn.example/x.png', 'http://cdn.example/p/x.png', 'data:image/png;base64,AAAA', 'sub/../z.png', 'é.png',
             '?img=logo', '.', './', 'img/..', '../', './a:b.png']
-KINDS = ['style', 'style', 'style', 'media', 'fontface', 'page', 'namespace', 'comment']
+KINDS = ['style', 'style', 'style', 'media', 'fontface', 'page', 'namespace', 'comment', 'variables']
 
 
 @st.composite
@@ -317,6 +317,9 @@ def render_file(t, i, base=None):
             body.append('@font-face { %s }' % decls)
         elif k == 'page':
             body.append('@page { %s }' % decls)
+        elif k == 'variables':
+            # (allowed before the first style / @media / @page / @font-face rule only)
+            out.append('@variables { x-id: %s%s }' % (rid, ''.join('; u%d: url(%s%s%s)' % (j, r['quote'] or ('"' if ' ' in u else ''), u, r['quote'] or ('"' if ' ' in u else '')) for j, u in enumerate(r['urls']))))
         elif k == 'namespace':
             out.append('@namespace %s "http://ns.example/%s";' % (rid, rid))
         elif k == 'comment':
@@ -408,6 +411,16 @@ def entries_of(sheet, what):
                 out.append(('fontface', ctx, rid(r.style, r), urls_of(r.style)))
             elif r.type == r.PAGE_RULE:
                 out.append(('page', ctx, rid(r.style, r), urls_of(r.style)))
+            elif r.type == r.VARIABLES_RULE:
+                vd = r.variables
+                ident = vd.getVariableValue('x-id')
+                if not ident:
+                    raise Violation(f'flatten:{what}:rule-without-identity', r.cssText[:200])
+                vals = []
+                for name in sorted(k for k in vd.keys() if k != 'x-id'):
+                    pv = cssutils.css.PropertyValue(vd.getVariableValue(name))
+                    vals.extend(norm_url(urllib.parse.urljoin(base, v.uri)) for v in pv if v.type == 'URI')
+                out.append(('variables', ctx, ident, tuple(vals)))
             elif r.type == r.MEDIA_RULE:
                 walk(r.cssRules, ctx + (r.media.mediaText,))
             elif r.type == r.IMPORT_RULE:
@@ -453,8 +466,16 @@ def compare(t, got, what, base=None):
         if not (kinds - {'style', 'comment'}):
             raise Violation(f'flatten:{what}:wrappable-import-kept', f'file {i} import {n}: group has only {kinds}')
     exp = expansion(t, kept, base)
-    g = [e for e in got if e[0] != 'import']
-    x = [e for e in exp if e[0] != 'import']
+    # @variables rules take no part in the cascade order of the rules (add() keeps them in front): compared as a multiset
+    gv = Counter(e for e in got if e[0] == 'variables')
+    xv = Counter(e for e in exp if e[0] == 'variables')
+    if gv != xv:
+        lost, extra = xv - gv, gv - xv
+        if Counter(e[2] for e in gv) != Counter(e[2] for e in xv):
+            raise Violation(f'flatten:{what}:{"rule-lost" if lost else "rule-duplicated"}', f'@variables rules: expected {sorted(xv)}, got {sorted(gv)}')
+        raise Violation(f'flatten:{what}:url-resolves-elsewhere:variables', f'@variables rules: expected {sorted(lost)}, got {sorted(extra)}')
+    g = [e for e in got if e[0] not in ('import', 'variables')]
+    x = [e for e in exp if e[0] not in ('import', 'variables')]
     if g != x:
         gi, xi = [e[2] for e in g], [e[2] for e in x]
         if Counter(gi) != Counter(xi):
@@ -553,6 +574,8 @@ def check_flatten(case, ctx):
             ser = cssutils.serialize.CSSSerializer()
             if case['minify']:
                 ser.prefs.useMinified()
+            # (@variables rules are part of the compared structure: written as they are)
+            ser.prefs.resolveVariables = False
             old = cssutils.ser
             cssutils.setSerializer(ser)
             try:
@@ -613,7 +636,7 @@ def check_combine(case, ctx):
                 f.write(render_file(t, i, base).encode('utf-8'))
             paths[i] = p
         try:
-            out = cssutils.script.csscombine(path=paths[0], minify=case['minify'], targetencoding=case['encoding'])
+            out = cssutils.script.csscombine(path=paths[0], minify=case['minify'], targetencoding=case['encoding'], resolveVariables=False)
         except Exception as e:  # noqa: BLE001
             raise Violation('crash:csscombine:' + frame_sig(e), f'{[render_file(t, i, base) for i in range(len(t["files"]))]}: {e!r}')
         if cssutils.ser is not oldser:
